@@ -307,8 +307,6 @@ impl VM {
                 }
                 OpCode::GetGlobal => {
                     let idx = self.read_u16();
-                    #[cfg(feature = "verif")]
-                    crate::verif::probe_global(self.ip, idx, self.globals.len());
                     // A global that is read before its declaration has finished (stel x = x) is null,
                     // just like a local variable in that situation
                     let value = self
